@@ -4,6 +4,9 @@ import json, os, sys
 ROOT = os.path.dirname(os.path.dirname(os.path.abspath(__file__)))
 sys.path.insert(0, ROOT)
 REG = json.load(open(os.path.join(ROOT, "registry.json")))
+for fn in sorted(os.listdir(os.path.join(ROOT, "registry.d"))):
+    if fn.endswith(".json"):
+        REG[fn[:-5]] = json.load(open(os.path.join(ROOT, "registry.d", fn)))
 props = [json.loads(l) for l in open(os.path.join(ROOT, "properties.jsonl"))]
 checks, na = [], []
 for p in props:
